@@ -25,6 +25,8 @@ func (x *Exec) execBlock(fr *Frame, b *ssa.BasicBlock, st *State) []edge {
 			x.curPos = p
 		}
 		x.curPC = st.pc
+		x.curFrame = fr
+		x.curStateForOwner = st
 		switch i := in.(type) {
 		case *ssa.If:
 			c := asTerm(x.val(fr, st, i.Cond))
@@ -165,6 +167,7 @@ func (x *Exec) execInstr(fr *Frame, st *State, in ssa.Instruction) {
 			x.localCells[r.id] = "L$" + shortKey(funcKey(fr.fn)) + "$" + i.Name()
 		}
 		x.initObject(st, r, T)
+		x.assumeObjKind(r, i.Type())
 		x.setReg(st, i, r)
 	case *ssa.UnOp:
 		x.execUnOp(fr, st, i)
@@ -180,6 +183,7 @@ func (x *Exec) execInstr(fr *Frame, st *State, in ssa.Instruction) {
 		p := asTerm(x.val(fr, st, i.X))
 		x.nonNil(fr, st, p, "field address of nil pointer")
 		T := i.X.Type().Underlying().(*types.Pointer).Elem()
+		x.liveCheck(fr, st, p, T)
 		x.setReg(st, i, x.fieldAddr(p, T, i.Field))
 	case *ssa.Field:
 		a := x.val(fr, st, i.X).(*Agg)
@@ -1048,6 +1052,16 @@ func (x *Exec) tagOf(v *Term) *Term {
 
 // unbox extracts the payload of v as Go type T (assuming the tag matches).
 func (x *Exec) unbox(st *State, v *Term, T types.Type) Value {
+	r := x.unbox1(st, v, T)
+	if o, ok := x.valOrigin[v.id]; ok && x.isValidatorPtrType(T) {
+		if rt, ok := r.(*Term); ok {
+			x.noteChildLoad(o, rt)
+		}
+	}
+	return r
+}
+
+func (x *Exec) unbox1(st *State, v *Term, T types.Type) Value {
 	tt := x.tt
 	if x.isAggType(T) {
 		return x.fresh("unboxed", T)
@@ -1155,4 +1169,20 @@ func (x *Exec) lookupNameByDebugRefs(fn *ssa.Function, st *State, name string) (
 		}
 	}
 	return nil, nil, false
+}
+
+// liveCheck: no use after redeem - a field of a pooled-type object is only accessed while the object is live.
+func (x *Exec) liveCheck(fr *Frame, st *State, p *Term, T types.Type) {
+	if x.inSpec > 0 || len(x.prog.Cons.ValidatorTypes) == 0 {
+		return
+	}
+	tn := typeName(T)
+	if !(x.isValidatorTypeName(tn) || tn == "Result") {
+		return
+	}
+	if p.Kind == KSym && strings.HasPrefix(p.Op, "new$") {
+		return
+	}
+	red := x.tt.Select(x.heap(st, "G$redeemed", arraySort("Int", "Bool")), p)
+	x.oblige(fr, st, "live", tn+"|"+x.lineAnchor(x.curPos), []string{"C04", "C05", "C11"}, x.tt.Not(red), "no use of a "+tn+" after it was redeemed to its pool")
 }
